@@ -39,3 +39,21 @@ register(
     "Rocq/Coq proof of rank/unrank bijections + vm_compute correspondence + exact differential oracle",
     "DESIGN.md section 4 C19",
 )
+
+register(
+    "C15",
+    "Coq theorems (closed): kron's row-ownership bookkeeping accepts exactly 0<=ri<rf<=D, slices a contiguous block "
+    "of rows containing [ri,rf) whose row count matches, and the final slice is exactly rows ri..rf-1, for every "
+    "dimension list and range; ikron's emitted Kronecker factors fill the composite space exactly; dim_compress "
+    "preserves the product of dimensions; the _trace_lose/_trace_keep index formulas address exactly the traced "
+    "entries (ravel identities, injectivity); partial trace is the adjoint of embedding over any commutative ring. "
+    "Hand model of quimb/core.py tied by correspondence evaluated in Coq against values observed in the running "
+    "implementation (dynal, matching, sliced row counts, factors handed to kron, dim_compress output). Dense/sparse "
+    "format agreement, pkron/permute, 2-D coordinates and Hamiltonian row ownership are decided by an exact "
+    "numpy-reference oracle stream (test, not theorem).",
+    "Trusted: Coq kernel; hand model + harness (module-global rebinding to observe kron / _kron_core); numpy/scipy "
+    "kron, reshape, transpose and sparse formats are not modelled. Known finding: sparse partial trace with "
+    "dimension-1 subsystems.",
+    "Rocq/Coq proof over hand model + vm_compute correspondence + exact differential oracle",
+    "DESIGN.md section 4 C15",
+)
